@@ -1,5 +1,5 @@
 """Rules shared by several properties (each instance is keyed with the calling property's prefix)."""
-from lib import (sfx, get_fn, callers_of, strip_expr, expr_calls, show)
+from lib import (sfx, get_fn, callers_of, strip_expr, expr_calls, show, calls_through, forwarders_of)
 from mir import norm
 
 
@@ -24,6 +24,15 @@ def single_writer_store(ck, F, E, P):
     )
     edit_callers = sorted({b.path for b, _ in callers_of(F, "Program::set_numbered_line")})
     allowed = ("Interpreter::evaluate_impl", "SourceFileAnalyzer::run")
+    # a private helper that only forwards its parameters to set_numbered_line stands for its own callers
+    fw = forwarders_of(F, "Program::set_numbered_line")
+    resolved = set()
+    for n in edit_callers:
+        if n in fw and not any(sfx(n, a) for a in allowed):
+            resolved |= {b.path for b in F.bodies.values() for c in b.calls() if c.callee == n}
+        else:
+            resolved.add(n)
+    edit_callers = sorted(resolved)
     ck.require(
         bool(edit_callers) and all(any(sfx(n, a) for a in allowed) for n in edit_callers),
         "%s:CALLER:Program::set_numbered_line" % P, "who-may-call",
@@ -83,7 +92,7 @@ def edit_path_rules(ck, F, E, P, strict=True):
     ev = get_fn(ck, F, "Interpreter::evaluate_impl")
     if ev is None:
         return None, None
-    cs = ev.calls_to("Program::set_numbered_line")
+    cs = calls_through(F, ev, "Program::set_numbered_line")
     if strict:
         ck.require(len(cs) == 1, "%s:EDITPATH:one-call" % P, "edit path", "one store call in evaluate_impl",
                    "expected exactly one set_numbered_line call in evaluate_impl, found %d" % len(cs), ev.span)
